@@ -161,3 +161,73 @@ theorem link_chain (eoc : Nat) (cs : List Nat) :
         simpa [List.getLast?_cons_cons] using hl
 
 end Proofs.Alloc
+
+namespace Proofs.Alloc
+open Model.Alloc
+
+/-! ## completeness of the scan: no spurious out-of-space beyond the documented slack -/
+
+/-- may index `i` be handed out -/
+def allocatable (p : Params) (fat : List Nat) (i : Nat) : Bool :=
+  !(decide (p.cv.minData > i ∨ i > p.cv.maxData)) && decide (fat.getD i 0 = p.cv.free) && !skipIdx p i
+
+/-- number of allocatable indices in `[i, i + fuel)` -/
+def avail (p : Params) (fat : List Nat) : (fuel i : Nat) → Nat
+  | 0, _ => 0
+  | fuel + 1, i => (if allocatable p fat i then 1 else 0) + avail p fat fuel (i + 1)
+
+/-- if the scan gives up, the range held at most `n - |acc|` allocatable clusters:
+    i.e. `allocate_bytes` raises ENOSPC only when fewer than `n + 1` clusters are
+    available from the hint on (the `for … else` needs one index *after* the last
+    cluster it takes — defect D6, inside the property's "clearly enough" slack). -/
+theorem scan_none_avail (p : Params) (fat : List Nat) (n : Nat) :
+    ∀ (fuel i : Nat) (acc : List Nat), acc.length ≤ n → scan p fat n fuel i acc = none →
+      acc.length + avail p fat fuel i ≤ n := by
+  intro fuel
+  induction fuel with
+  | zero => intro i acc h _; simp [avail]; exact h
+  | succ fuel ih =>
+    intro i acc hacc h
+    rw [scan] at h
+    simp only [avail]
+    split at h
+    · rename_i hr
+      have : allocatable p fat i = false := by
+        unfold allocatable; rw [decide_eq_true hr]; rfl
+      simp only [this]
+      have := ih (i + 1) acc hacc h
+      simp at this ⊢; omega
+    · rename_i hr
+      split at h
+      · simp at h
+      · rename_i hn
+        split at h
+        · rename_i hfree
+          have ha : allocatable p fat i = true := by
+            unfold allocatable
+            rw [decide_eq_false hr, decide_eq_true hfree.1, hfree.2]; rfl
+          have := ih (i + 1) (acc ++ [i]) (by simp; omega) h
+          simp [ha] at this ⊢; omega
+        · rename_i hfree
+          have ha : allocatable p fat i = false := by
+            unfold allocatable
+            by_cases h1 : fat.getD i 0 = p.cv.free
+            · have hs : skipIdx p i = true := by
+                cases hs : skipIdx p i
+                · exact absurd ⟨h1, hs⟩ hfree
+                · rfl
+              rw [hs]; simp
+            · rw [decide_eq_false h1]; simp
+          have := ih (i + 1) acc hacc h
+          simp [ha] at this ⊢; omega
+
+theorem allocate_enospc_only_if_short (p : Params) (fat : List Nat) (hint bound n : Nat)
+    (h : allocate p fat hint bound n = none) : avail p fat (bound - hint) hint ≤ n := by
+  unfold allocate at h
+  split at h
+  · rename_i hs
+    have := scan_none_avail p fat n (bound - hint) hint [] (by simp) hs
+    simpa using this
+  · simp at h
+
+end Proofs.Alloc
